@@ -8,6 +8,7 @@ combinations rather than abstracting them (stated in the evidence as realisation
 comparer in unit `compare` are symbolic reals in [0, 1].
 """
 import itertools
+import math
 import statistics
 
 from symx import And, Or, Not, Implies, SymNum
@@ -40,6 +41,40 @@ def sym_fmean(xs):
     return statistics.fmean(xs)
 
 
+def sym_fsum(xs):
+    xs = list(xs)
+    if any(isinstance(x, SymNum) for x in xs):
+        return sum(xs)
+    return math.fsum(xs)
+
+
+class _Shim:
+    """a module proxy: the float-converting reductions accept symbolic numbers (exact sum / count), everything else is the real module"""
+
+    def __init__(self, real, repl):
+        self._real, self._repl = real, repl
+
+    def __getattr__(self, name):
+        return self._repl.get(name) or getattr(self._real, name)
+
+
+class numeric_shims:
+    """while active, the module-level names `statistics` and `math` of src.diagnostic.alignment_comparer (whichever it imports) are proxies
+    whose fmean / mean / fsum do not convert to float; names the module does not have are left alone"""
+    REPL = {"statistics": (statistics, {"fmean": sym_fmean, "mean": sym_fmean}), "math": (math, {"fsum": sym_fsum})}
+
+    def __enter__(self):
+        self.saved = {}
+        for name, (real, repl) in self.REPL.items():
+            if getattr(ac, name, None) is real:
+                self.saved[name] = real
+                setattr(ac, name, _Shim(real, repl))
+
+    def __exit__(self, *a):
+        for name, real in self.saved.items():
+            setattr(ac, name, real)
+
+
 class StubRowComparer:
     """symmetric arbitrary measures: coverage of x against y, identity of the unordered pair"""
 
@@ -68,18 +103,15 @@ def body_compare(E, cfg):
         a.tag = f"a{i}"
     for i, b in enumerate(B):
         b.tag = f"b{i}"
-    saved = ac.statistics
-    ac.statistics = type("S", (), {"fmean": staticmethod(sym_fmean)})
     try:
-        s1 = StubRowComparer(E)
-        res = AlignmentComparer(s1).compare(list(A), list(B))
-        s2 = StubRowComparer(E)
-        swp = AlignmentComparer(s2).compare(list(B), list(A))
+        with numeric_shims():
+            s1 = StubRowComparer(E)
+            res = AlignmentComparer(s1).compare(list(A), list(B))
+            s2 = StubRowComparer(E)
+            swp = AlignmentComparer(s2).compare(list(B), list(A))
     except Exception as ex:  # noqa
         E.fail("exception:" + type(ex).__name__)
         return ["exception", type(ex).__name__]
-    finally:
-        ac.statistics = saved
     k1 = {(int(a.queryId), int(a.referenceId)) for a in A}     # realised on this path
     k2 = {(int(b.queryId), int(b.referenceId)) for b in B}
     if k1 and k2:
@@ -153,15 +185,12 @@ def body_create(E, cfg):
             rows.append(AlignmentRowComparison.alignment1Only(a))
         else:
             rows.append(AlignmentRowComparison.alignment2Only(a))
-    saved = ac.statistics
-    ac.statistics = type("S", (), {"fmean": staticmethod(sym_fmean)})
     try:
-        res = AlignmentComparison.create(list(rows))
+        with numeric_shims():
+            res = AlignmentComparison.create(list(rows))
     except Exception as ex:  # noqa
         E.fail("exception:" + type(ex).__name__)
         return ["exception", type(ex).__name__]
-    finally:
-        ac.statistics = saved
     if n >= 2:
         E.tag("nontrivial")
     E.check("four-counters-sum-to-the-number-of-rows", res.overlapping + res.nonOverlapping + res.firstOnly + res.secondOnly == n)
@@ -182,8 +211,8 @@ def units(prop):
              bounds="0..2 + 0..2 alignments (thorough 3 + 2) whose query and reference ids range over {1,2} (realised at the dict boundary); "
                     "identity and coverages returned by the injected row comparer are symbolic reals in [0,1]",
              nontrivial_rule="both sets non-empty",
-             stubs=["row comparer injected (arbitrary symmetric measures)", "statistics.fmean replaced by sum/len inside "
-                    "src.diagnostic.alignment_comparer (fmean converts to float)"],
+             stubs=["row comparer injected (arbitrary symmetric measures)", "statistics.fmean/mean and math.fsum replaced by exact sum(/len) inside "
+                    "src.diagnostic.alignment_comparer (they convert to float)"],
              assumptions=["ids are enumerated by realisation forks, not abstracted"], outside=["more than 3 alignments per set, ids outside {1,2}"],
              shard_depth=lambda cfg, tier: 6),
         Unit(name="AlignmentRowComparer.compare", body=body_row,
@@ -200,5 +229,5 @@ def units(prop):
              configs=lambda tier: [dict(n=k) for k in range(0, (4 if tier == "quick" else 7))],
              functions=["src.diagnostic.alignment_comparer:AlignmentComparison.create"],
              bounds="0..3 (quick) / 0..4 (thorough) rows of the three kinds with symbolic measures in [0,1]",
-             nontrivial_rule="at least two rows", stubs=["statistics.fmean replaced by sum/len"], outside=["more rows"]),
+             nontrivial_rule="at least two rows", stubs=["statistics.fmean/mean and math.fsum replaced by exact sum(/len)"], outside=["more rows"]),
     ]
